@@ -387,13 +387,22 @@ func (s *Server) onRequest(st *stream, sub, unsub []string) {
 		delete(st.subs, n)
 		st.ambig[n] = inSub[n]
 	}
+	var batch *api.SvcConfigDiscoveryResponse
+	defer func() {
+		if batch != nil {
+			s.enqueue(st, batch)
+		}
+	}()
 	for _, n := range sub {
 		st.subs[n] = true // a name in both lists is taken as subscribed (the order inside one request is undefined)
 		st.ambig[n] = inUnsub[n]
 		switch st.scope {
 		case Config:
 			if c := s.cfgs[n]; c != nil {
-				s.enqueue(st, &api.SvcConfigDiscoveryResponse{Updated: map[string]*service.Config{n: c}})
+				if batch == nil {
+					batch = &api.SvcConfigDiscoveryResponse{Updated: map[string]*service.Config{}}
+				}
+				batch.Updated[n] = c // one response carries the configurations of all names of the request
 			}
 		case Endpoint:
 			resp := &api.SvcEndpointDiscoveryResponse{SvcName: n, Added: append([]*service.Endpoint(nil), s.eps[n]...)}
